@@ -426,6 +426,8 @@ class Interp:
                     continue
                 if isinstance(v, RefV):
                     out.append((s, ("loc", v.key, v.path)))
+                elif isinstance(v, MemRefV):
+                    out.append((s, ("mem", v.target, v.idx, e)))
                 else:
                     out.append((s, ("val", v)))
             return out
@@ -1063,6 +1065,8 @@ class Interp:
             v = vs[0]
             if isinstance(v, RefV):
                 v = self.read_loc(s, v.key, v.path)
+            if isinstance(v, MemRefV):
+                return [(s2, "val", x) for s2, x in self.index_read(s, v.target, v.idx, e)]
             return [(s, "val", v)]
 
         return self.seq([e["arg"]], st, fn)
@@ -1366,6 +1370,11 @@ class Interp:
             if b.ty in SIGNED and not (Bl.is_const() and Bl.c >= 0):
                 amount_ok = f_and(flit(ge(Bl, 0)), amount_ok)
             for s in self.oblige(st, amount_ok, "overflow-" + op.lower(), e):
+                if Bl.is_const() and op == "Shl" and not A.is_const() and 0 < Bl.c < w and \
+                        solver.entails(s.pc, flit(le(A.scale(1 << Bl.c), mx))):
+                    # no bit is shifted out: the value is simply multiplied
+                    outs.append((s, IntV(A.scale(1 << Bl.c), ty)))
+                    continue
                 if Bl.is_const():
                     bits = B.to_bits(A, w)
                     r = None
